@@ -404,6 +404,13 @@ EMITTED_GENERIC_WITNESS = 'emitted name of an imported type is a generic paramet
 MULTI_WS.append((EMITTED_GENERIC_WITNESS, {'a/src/lib.rs': '#[typeshare]\n#[serde(rename = "X2")]\npub struct A2 { pub x: u8 }\n',
                                            'my_crate/src/lib.rs': 'use a::A2;\n#[typeshare]\npub struct G<X2> { pub f: A2, pub g: X2 }\n'},
                  {'my_crate': ['$X2', 'X2']}))
+# a renamed type of another crate referenced ONLY as a HashMap key or as a NON-LAST generic argument (seeded C09_h: the iterator over
+# the names a type refers to dropped pending sibling arguments, so the import was pruned and the reference kept its Rust name)
+MULTI_WS.append(('renamed type only as a map key / non-last generic argument',
+                 {'a/src/lib.rs': A_LIB + '#[typeshare]\n#[serde(rename = "KeyRenamed")]\npub enum K1 { X, Y }\n#[typeshare]\npub struct Pair<T, U> { pub t: T, pub u: U }\n',
+                  'b/src/lib.rs': 'use a::{A2, K1, Pair};\nuse std::collections::HashMap;\n#[typeshare]\npub struct B1 { pub m: HashMap<K1, u8>, pub p: Pair<A2, u8> }\n'
+                                  '#[typeshare]\npub type L1 = Pair<A2, Pair<K1, String>>;\n'},
+                 {'b': ['A2Renamed', 'A2Renamed', 'KeyRenamed', 'KeyRenamed', 'Pair', 'Pair', 'Pair']}))
 _re = __import__('re')
 TS_IMPORT = _re.compile(r'^import \{([^}]*)\} from "\./([^"]+)";', _re.M)
 KT_IMPORT = _re.compile(r'^import p\.([^.\n]+)\.(\S+)$', _re.M)
@@ -483,7 +490,7 @@ def resolve_files(lang, ext, pfx, outs, expect):
         imported = {}
         if lang == 'typescript':
             pairs = [(x.strip(), src) for names, src in TS_IMPORT.findall(t) for x in names.split(',') if x.strip()]
-            generics = set(re.findall(r'<([A-Z]\w*)>', ' '.join(re.findall(r'export (?:interface|type) \w+(<[^>]*>)', t))))
+            generics = set(g.strip() for gs in re.findall(r'export (?:interface|type) \w+<([^>]*)>', t) for g in gs.split(','))
         else:
             pairs = [(n, src) for src, n in KT_IMPORT.findall(t)]
             generics = set(g.strip() for gs in re.findall(r'^(?:data class|sealed class|typealias|value class|enum class) \w+<([^>]*)>', t, re.M) for g in gs.split(','))
